@@ -220,7 +220,9 @@ def st_history(long_ids: bool):
     republish = st.tuples(st.just('republish'), st.integers(0, len(LOCAL) - 1), st.integers(0, 2), st.booleans()).map(list)
     # the application's callbacks (hello / bye / probe / probe matches / resolve match): none, well-behaved, or raising
     callbacks = st.tuples(st.just('callbacks'), st.sampled_from(['none', 'ok', 'raise', 'raise'])).map(list)
-    steps = [ann, ann, ann, bye, probe, probe, resolve, republish, callbacks]
+    # the application empties the table of discovered services (this is no reason to forget message ids)
+    clear = st.just(['clear_remote'])
+    steps = [ann, ann, ann, bye, probe, probe, resolve, republish, callbacks, clear]
     if long_ids:
         # the memory of 200 ids is full from the start, and may be flushed again later
         return st.tuples(filler, st.lists(st.one_of([*steps, probe, resolve, filler]), min_size=1, max_size=14)).map(
@@ -354,6 +356,11 @@ def history_case(ctx, hist):  # noqa: C901, PLR0912, PLR0915
             if rec.outbound[n_out:]:
                 raise R.HarnessError('filler messages must not be answered: ' + str([(m.p_msg.header_info_block.Action, a) for m, a, *_ in rec.outbound][:3]))
             del dispatched[:]
+            continue
+        if step[0] == 'clear_remote':
+            wsd.clear_remote_services()
+            model.remote.clear()
+            flags['cleared'] = True
             continue
         if step[0] == 'callbacks':
             mode = step[1]
